@@ -105,7 +105,8 @@ struct Models
     std::shared_ptr<RayleighModel> rayleigh;
     std::shared_ptr<CoulombScatteringModel> coulomb;
     std::shared_ptr<WentzelOKVIParams> wentzel[4];
-    std::shared_ptr<BetheBlochModel> bb;
+    std::shared_ptr<BetheBlochModel> bb, bb_proton;
+    std::shared_ptr<BraggModel> bragg_proton;
     std::shared_ptr<MuBetheBlochModel> mubb;
     std::shared_ptr<BraggModel> bragg;
     std::shared_ptr<ICRU73QOModel> icru;
@@ -121,6 +122,7 @@ constexpr double e_high = 1e8;  // MeV: detail::high_energy_limit()
 constexpr double coulomb_lo = 1e-4;  // MeV: lower bound of the mock xs grid
 constexpr double bragg_hi = 0.2;  // MuIonizationProcess::Options defaults
 constexpr double bb_hi = 1e3;
+constexpr double proton_bragg_hi = 2.0;
 constexpr double sb_hi = 1e3;  // detail::seltzer_berger_upper_limit()
 
 Model::SetApplicability
@@ -224,6 +226,11 @@ void setup()
         aid, P, make_applic({p_mu_plus}, 0, bragg_hi));
     M.icru = std::make_shared<ICRU73QOModel>(
         aid, P, make_applic({p_mu_minus}, 0, bragg_hi));
+    // hadrons: Bragg below 2 MeV, Bethe-Bloch above (Geant4's proton limits)
+    M.bragg_proton = std::make_shared<BraggModel>(
+        aid, P, make_applic({p_proton}, 0, proton_bragg_hi));
+    M.bb_proton = std::make_shared<BetheBlochModel>(
+        aid, P, make_applic({p_proton}, proton_bragg_hi, e_high));
     M.mubrems = std::make_shared<MuBremsstrahlungModel>(aid, P, M.imported);
     M.relbrem = std::make_shared<RelativisticBremModel>(
         aid, P, *W->materials, M.imported, false);
@@ -254,20 +261,20 @@ Verdict report(CaseLog& log,
         long double c = Te * (Tin + Mp + me)
                         / (momentum_of(Te, me) * momentum_of(Tin, Mp));
         if (c >= 1 - 16 * eps_d)
-            return log.fail(msg, "F13-forward-limit-costheta-nan");
+            return log.fail(msg, "F21-forward-limit-costheta-nan");
     }
     if (o.nan_seen && in.f8_dir)
         return log.fail(msg, "F8-rotate-nan");
-    if (kind == k_eplusgg && o.momentum_failed && in.energy > 0)
-        return log.fail(msg, "F7-eplusgg-momentum");
     // rotate() drops the sign of rot[Y] when 0 < sqrt(1 - z^2) < 0.005
     if (o.momentum_failed && in.near_axis && in.dir[1] < 0)
-        return log.fail(msg, "F11-rotate-sinphi-sign");
+        return log.fail(msg, "F13-rotate-near-z-sinphi-sign");
+    if (kind == k_eplusgg && o.momentum_failed && in.energy > 0)
+        return log.fail(msg, "F7-eplusgg-momentum");
     if (o.thr_ulp)
-        return log.fail(msg, "F12-secondary-below-cut-ulp");
+        return log.fail(msg, "F20-secondary-below-cut-ulp");
     // secondary energy exceeds the incident energy by rounding
     if (o.neg_ulp)
-        return log.fail(msg, "F15-negative-outgoing-energy-ulp");
+        return log.fail(msg, "F22-negative-outgoing-energy-ulp");
     (void)plan;
     return log.fail(msg);
 }
@@ -423,7 +430,16 @@ Verdict run_case(Choices& c, CaseLog& log)
         case k_icru73qo: {
             double lo, hi;
             bool lo_incl = true;
-            if (kind == k_bethebloch)
+            bool proton = (kind == k_bethebloch || kind == k_bragg)
+                          && c.boolean(0.35);
+            if (proton)
+            {
+                in.particle = p_proton;
+                lo = kind == k_bragg ? 1e-3 : proton_bragg_hi;
+                hi = kind == k_bragg ? proton_bragg_hi : e_high;
+                log.label("hadron-projectile");
+            }
+            else if (kind == k_bethebloch)
             {
                 in.particle = c.boolean() ? p_mu_plus : p_mu_minus;
                 lo = bragg_hi;
@@ -519,7 +535,7 @@ Verdict run_case(Choices& c, CaseLog& log)
         Verdict v2
             = evaluate(tmp, kind, in, spec, opts, plain, free_slots, ff);
         if (v2 != Verdict::violation || !tmp.finding.empty())
-            log.finding = std::string("F14-extreme-draw-") + kind_name[kind];
+            log.finding = std::string("F24-extreme-canonical-draw");
     }
     return v;
 }
@@ -619,7 +635,11 @@ Verdict evaluate(CaseLog& log,
         case k_bethebloch:
             rr = run_call(*W, log, spec, free_slots, plan, [&](auto& rng, auto& a) {
                 MuHadIonizationInteractor<BetheBlochEnergyDistribution> interact(
-                    M.bb->host_ref(), particle, cutoffs, in.dir, a);
+                    (in.particle == p_proton ? M.bb_proton : M.bb)->host_ref(),
+                    particle,
+                    cutoffs,
+                    in.dir,
+                    a);
                 return interact(rng);
             });
             break;
@@ -634,8 +654,10 @@ Verdict evaluate(CaseLog& log,
         case k_icru73qo:
             rr = run_call(*W, log, spec, free_slots, plan, [&](auto& rng, auto& a) {
                 MuHadIonizationInteractor<BraggICRU73QOEnergyDistribution>
-                    interact((kind == k_bragg ? M.bragg->host_ref()
-                                              : M.icru->host_ref()),
+                    interact((in.particle == p_proton
+                                  ? M.bragg_proton->host_ref()
+                              : kind == k_bragg ? M.bragg->host_ref()
+                                                : M.icru->host_ref()),
                              particle,
                              cutoffs,
                              in.dir,
